@@ -236,7 +236,12 @@ class SigmaBase64Modifier(SigmaValueModifier[SigmaString, SigmaString]):
                 "Base64 encoding of strings with wildcards is not allowed",
                 source=self.source,
             )
-        return SigmaString(b64encode(bytes(val)).decode())
+        try:
+            return SigmaString(b64encode(bytes(val)).decode())
+        except UnicodeEncodeError:  # e.g. a lone surrogate
+            raise SigmaValueError(
+                "Base64 modifier only allowed for valid Unicode strings", source=self.source
+            )
 
 
 class SigmaBase64OffsetModifier(SigmaValueModifier[SigmaString, SigmaExpansion]):
@@ -254,7 +259,12 @@ class SigmaBase64OffsetModifier(SigmaValueModifier[SigmaString, SigmaExpansion])
                 "Base64 encoding of strings with wildcards is not allowed",
                 source=self.source,
             )
-        val_bytes = bytes(val)  # offsets depend on the number of encoded bytes, not characters
+        try:
+            val_bytes = bytes(val)  # offsets depend on the number of encoded bytes, not characters
+        except UnicodeEncodeError:  # e.g. a lone surrogate
+            raise SigmaValueError(
+                "Base64 modifier only allowed for valid Unicode strings", source=self.source
+            )
         return SigmaExpansion(
             [
                 SigmaString(
@@ -278,7 +288,7 @@ class SigmaWideModifier(SigmaValueModifier[SigmaString, SigmaString]):
             ):  # put 0x00 after each character by encoding it to utf-16le and decoding it as utf-8
                 try:
                     r.append(item.encode("utf-16le").decode("utf-8"))
-                except UnicodeDecodeError:  # this method only works for ascii characters
+                except UnicodeError:  # this method only works for ascii characters (UnicodeError: also lone surrogates)
                     raise SigmaValueError(
                         f"Wide modifier only allowed for ascii strings, input string '{str(val)}' isn't one",
                         source=self.source,
@@ -300,7 +310,7 @@ class SigmaUTF16BEModifier(SigmaValueModifier[SigmaString, SigmaString]):
             if isinstance(item, str):
                 try:
                     r.append(item.encode("utf-16be").decode("utf-8"))
-                except UnicodeDecodeError:
+                except UnicodeError:
                     raise SigmaValueError(
                         f"UTF-16BE modifier only allowed for valid Unicode strings, input string '{str(val)}' isn't one",
                         source=self.source,
@@ -323,7 +333,7 @@ class SigmaUTF16Modifier(SigmaValueModifier[SigmaString, SigmaString]):
             if isinstance(item, str):
                 try:
                     r.append(item.encode("utf-16le").decode("utf-8"))
-                except UnicodeDecodeError:
+                except UnicodeError:
                     raise SigmaValueError(
                         f"UTF-16 modifier only allowed for valid Unicode strings, input string '{str(val)}' isn't one",
                         source=self.source,
